@@ -113,6 +113,10 @@ def ob_add_peer(report, prop):
             if registered and not (len(hs) == 1 and len(sp) == 1):
                 return bad('a connection that add() registered (it is listed and was announced) gets no request handler: nothing will ever remove it from the active set when it ends',
                            'add-peer-registered-without-handler', r)
+            ab = [e for e in r.events if e.kind == 'call' and re.search(r'(AbortHandle|JoinHandle|JoinSet)::(abort|abort_all|shutdown)$', str(e.name))]
+            if ab and not registered:
+                return bad(f'add_peer stops a running request handler ({ab[0].name}) although the tie-break refused the new connection: the connection that stays registered '
+                           'is left without a handler - requests on it are never served and its loss is never noticed', 'add-peer-aborts-survivor', r)
             if hs:
                 seen.add('kept')
                 if len(hs) != 1 or len(sp) != 1 or vname(hs[0].args[1]) != 'newconn':
@@ -126,3 +130,74 @@ def ob_add_peer(report, prop):
         ob.done([ex], 'held', '', {'paths': len(res)}, paths=len(res))
     return guarded(report, 'add_peer_wiring', 'ConnectionManager::add_peer passes (this endpoint\'s identity, the new connection) to ActivePeers::add and starts exactly one '
                    'handler iff the connection was registered', ['ConnectionManager::add_peer'], {'inline_depth': 1}, body)
+
+
+def ob_handler_failure_not_ignored(report, prop):
+    """the manager's event loop and a connection handler that ended abnormally: the handler task is the only thing that takes its connection out of the
+    active set (and announces LostPeer).  If the task died before doing so (a panic re-raised from a request task), carrying on as if nothing happened
+    leaves that peer listed - and never announced lost - for good.  The loop must either propagate the failure or remove the connection itself."""
+    def body(ob):
+        def m_poll_fn(ex, p, call, k):
+            p.events.append(Event('select', 'poll_fn', (call.args[0],)))
+            k(p, Sym(f'select_future{p.seq("sel")}', 'PollFn'))
+
+        def m_is_panic(ex, p, call, k):
+            # nothing aborts a handler task while the loop runs (add_peer_wiring): a JoinError of a handler is a panic
+            k(p, z3.BoolVal(True))
+
+        def m_try_into_panic(ex, p, call, k):
+            k(p, MD.ok(Sym('panic_payload', 'Box<dyn Any + Send>')))
+
+        def m_diverge(ex, p, call, k):
+            p.events.append(Event('panic', call.short, (), None, call.span, call.depth))
+            ex.end_path(p, 'panic', call.short)
+
+        def m_rm(ex, p, call, k):
+            p.events.append(Event('remove', call.short.split('::')[-1], call.args[1:], None, call.span))
+            k(p, UNIT)
+        from mirsym import models as MD
+        models = [(r'future::poll_fn$', m_poll_fn), (r'JoinError::is_panic$', m_is_panic), (r'JoinError::is_cancelled$', lambda ex, p, call, k: k(p, z3.BoolVal(False))),
+                  (r'JoinError::try_into_panic$', m_try_into_panic), (r'panic::resume_unwind$|panic::panic_any$', m_diverge),
+                  (r'ActivePeers::(remove|remove_with_stable_id)$', m_rm)] + CONNECTION_MODELS
+        ex = e2.executor('anemo', models, max_depth=1, unroll=1, fixed_bounds=True)
+        start = find_method(ex.prog, 'ConnectionManager', 'start')
+        fn = find_closure(ex.prog, start, [0])
+        p, args = coroutine_start(ex, fn)
+        res = ex.run(fn, args, p)
+        n, seen_ok = 0, 0
+        for r in res:
+            # arms of the select!, in the order their futures are created; the handler arm = join_next on the JoinSet<()> of handler tasks
+            arms = [e for e in r.events if e.kind == 'call' and re.search(r'Interval::tick$|Receiver::recv$|Endpoint::accept$|JoinSet::join_next$', str(e.name))]
+            sel = [i for i, e in enumerate(r.events) if e.kind == 'select']
+            if not sel:
+                continue
+            first = [e for e in r.events[:sel[0]] if e in arms]
+            hidx = None
+            for i, e in enumerate(first):
+                if str(e.name).endswith('JoinSet::join_next'):
+                    a0 = e.args[0] if e.args else None
+                    ty = (getattr(a0, 'pty', '') or '') + ' ' + str(e.ret.ty if isinstance(e.ret, Sym) else '')
+                    if re.search(r'JoinSet<\(\)>', ty):
+                        hidx = i
+            if hidx is None:
+                continue
+            pcs = ' '.join(str(z3.simplify(c)) for c in r.pc)
+            base = f'poll(select_future1)#1'
+            if f'{base}.discr == {hidx}' not in pcs or f'{base}@_{hidx}.0.discr == 1' not in pcs or f'{base}@_{hidx}.0@Some.0.discr == 1' not in pcs:
+                continue
+            n += 1
+            removed = any(e.kind == 'remove' for e in r.events[sel[0]:])
+            if r.tag in ('panic', 'diverge') or removed:
+                seen_ok += 1
+                continue
+            o = ob.done([ex], 'violated', 'the connection manager loop carries on after a connection handler task ended abnormally (JoinError) without propagating the failure or removing '
+                        'that connection: the handler is what deregisters its connection, so the peer stays listed and no LostPeer is ever published for it', path_summary(r),
+                        key='handler-failure-ignored', paths=len(res))
+            o.replay = write_replay(prop, o.name, path_summary(r))
+            return o
+        if not n:
+            return ob.done([ex], 'inconclusive', 'the handler-exit arm of the manager loop (join_next on the JoinSet<()> of handler tasks yielding Some(Err)) was not reached', paths=len(res))
+        ob.done([ex], 'held', '', {'paths': len(res), 'handler_failure_paths': n}, paths=len(res))
+    return guarded(report, 'handler_failure_not_ignored', 'ConnectionManager::start, one iteration from an arbitrary state: when join_next on the handler tasks yields Some(Err(JoinError)) the loop '
+                   'propagates it (panics) or removes the connection - it never just continues', ['ConnectionManager::start'],
+                   {'loop_unroll': 1, 'select outcome': 'symbolic', 'JoinError': 'is a panic (nothing cancels handler tasks)'}, body)
